@@ -70,6 +70,7 @@ def run(repo, rep, tier):
     split_ok = _algebra(repo, rep)
     _helpers(repo, rep)
     _raise_sites(repo, rep, split_ok)
+    _edited_upstream(repo, rep)
     _token_tables(repo, rep, split_ok)
     _parser_outputs(repo, rep)
     from . import c05
@@ -619,9 +620,59 @@ def _raise_sites(repo, rep, split_ok):
                       "only (chains: %s)" % (key, shown),
                       construct="drift-at:" + key, where=wh,
                       detail="step(s) %s are not position faithful" % drift[:2])
+            # ... and is the text that stands there: a copy edited inside
+            # the raising function (newlines blanked, continuations joined)
+            # keeps its offset but source[offset:offset+len(token)] != token
+
+            def is_edit(st):
+                return [x for x in st if x in ("method:replace",
+                                               "call:substitute",
+                                               "method:sub",
+                                               "method:expandtabs")]
+            edited = [e_ for e_ in (is_edit(st) for st in chains) if e_]
+            rep.check(not edited, "R11.2", site,
+                      "the token of %s is a piece of the source as written, "
+                      "not a copy edited on the way to the raise (chains: "
+                      "%s)" % (key, shown),
+                      construct="edited:" + key, where=wh,
+                      detail="step(s) %s rewrite the text" % edited[:2])
     rep.count("template_error_raise_sites", n)
     rep.require_min("R11.2", 40, "TemplateError raise sites (two obligations "
                                  "each) on the compile path")
+
+
+def _edited_upstream(repo, rep):
+    """The same obligation one step earlier: what an expression compiler is
+    handed (and raises its ExpressionError with) must be the text as
+    written.  Entity decoding and the ';;' / '\\|' escapes are undone on the
+    way, on position-keeping copies whose text no longer equals
+    source[offset:offset+len(token)]."""
+    from .c12 import _extent
+    L.borrow(repo, rep, "R11.2", "C12", _extent,
+             ("decoded-before-ref", "unescaped-before-ref"), minimum=3)
+    f = repo.func("chameleon.tales.TalesExpr.__call__")
+    edits = []
+    for n in ast.walk(f.node):
+        if isinstance(n, ast.Assign) and isinstance(n.value, ast.Call) and \
+                isinstance(n.value.func, ast.Attribute) and \
+                n.value.func.attr == "replace" and \
+                len(n.value.args) >= 2 and all(
+                    isinstance(a, ast.Constant) and isinstance(a.value, str)
+                    for a in n.value.args[:2]) and \
+                n.value.args[0].value != n.value.args[1].value:
+            var = src(n.targets[0])
+            handed = any(isinstance(c, ast.Call) and
+                         src(c.func).endswith("translate_proxy") and
+                         any(src(a) == var for a in c.args) and
+                         c.lineno >= n.lineno for c in ast.walk(f.node))
+            if handed:
+                edits.append(n)
+    rep.check(not edits, "R11.2", f.qualname, "the alternatives of a pipe "
+              "expression reach their compiler as written (the '\\|' escape "
+              "is not undone on the text an error is reported with)",
+              construct="unescaped-before-ref:pipe",
+              where=L.where(f, edits[0].lineno) if edits else L.where(f),
+              detail="; ".join(src(n) for n in edits))
 
 
 def _location(repo, rep):
